@@ -44,6 +44,10 @@ class Table:
     def classes(self):
         return sorted({c for (s, f, c) in self.entries.values() if c and s == "SEVERITY_WARNING"})
 
+    def all_classes(self):
+        """every class name the table carries (the usage text advertises all of them), whatever the severity"""
+        return sorted({c for (s, f, c) in self.entries.values() if c})
+
     def expected_message(self, name, args):
         """the format with the offending texts substituted (what the property demands)"""
         out, it = [], iter(args)
@@ -80,19 +84,22 @@ class Case:
 
 
 def _resolve_expect(fault_expect, schema):
-    """replace @line:/@attr:/@type: placeholders by the 0-based line numbers of the rendered schema"""
+    """replace @line:/@attr:/@type: placeholders and callables by the 0-based line numbers of the rendered schema/file"""
+    decls = [d for sc in schema.schemas for d in sc.decls] if isinstance(schema, G.File) else schema.decls
     out = []
     for code, args in fault_expect:
         na = []
         for a in args:
-            if a.startswith("@line:"):
-                d = next(d for d in schema.decls if getattr(d, "name", None) == a[6:])
+            if callable(a):
+                na.append(a())
+            elif a.startswith("@line:"):
+                d = next(d for d in decls if getattr(d, "name", None) == a[6:])
                 na.append(str(d.line))
             elif a.startswith("@type:"):
-                na.append(str(schema.find(a[6:]).line))
+                na.append(str(next(d for d in decls if getattr(d, "name", None) == a[6:]).line))
             elif a.startswith("@attr:"):
                 _, en, an = a.split(":")
-                e = next(d for d in schema.decls if isinstance(d, G.Entity) and d.name == en)
+                e = next(d for d in decls if isinstance(d, G.Entity) and d.name == en)
                 na.append(str(next(x.line for x in e.attrs if x.name == an)))
             else:
                 na.append(a)
@@ -131,14 +138,49 @@ def gen_cases(rng, n_base, size, mutators=None, lexical=True, tag="g"):
     return cases
 
 
+def gen_file_cases(rng, n_base, size=3, tag="m", mutators=None):
+    """valid multi-schema files (chained USE/REFERENCE, renames) and their single-fault mutants"""
+    cases = []
+    names = mutators if mutators is not None else (sorted(G.FILE_MUTATORS) + ["undef_attr_type", "dup_decl", "undef_super", "missing_super",
+                                                                              "sub_cycle", "dup_redecl_attr", "syntax"])
+    for i in range(n_base):
+        base = G.gen_file(rng, size=size)
+        c = make_case(f"{tag}{i}_valid", base, "valid", [], "accept", note="schemas " + ",".join(x.name for x in base.schemas))
+        c.multi = True
+        cases.append(c)
+        for mn in names:
+            f = G.mutate_file(base, mn, rng)
+            if f is None:
+                continue
+            c = make_case(f"{tag}{i}_{mn}", f.schema, f.cls, f.expect, f.verdict, f.warn, f.note)
+            c.multi = True
+            cases.append(c)
+    return cases
+
+
 # ------------------------------------------------------------------------------------------------ cycle graphs
-def gen_graph_case(rng, name, kind, n=None):
-    """random digraph over attribute-less entities (kind='sub') or select types (kind='sel'), cyclic or not;
-    the label is computed here (reachability), not taken from any tool"""
+NAME_POOL = ["assembly", "base_item", "part", "gadget", "widget", "node", "arc", "shell", "face", "edge", "zone", "axis",
+             "b1", "k9", "mm", "q", "tt", "vx", "alpha", "omega"]
+
+
+def gen_graph_case(rng, name, kind, n=None, outside=False):
+    """random digraph over attribute-less entities (kind='sub') or select types (kind='sel'), cyclic or not, under random
+    names (the resolver visits declarations in hash order); `outside` forces the shape "cycle + a legitimate ancestor above a
+    cycle member that is not itself on the cycle".  The label is computed here (reachability), not taken from any tool."""
     n = n or rng.randint(2, 5)
-    names = [f"{'v' if kind == 'sub' else 's'}{i}" for i in range(n)]
+    names = rng.sample(NAME_POOL, n)
     p = rng.choice([0.15, 0.3, 0.5])
-    edges = {a: [b for b in names if rng.random() < p] for a in names}    # a -> b : b is a subtype / item of a
+    if outside:
+        k = rng.randint(2, max(2, n - 1)) if n > 2 else 2
+        cyc, rest = names[:k], names[k:]
+        edges = {a: [] for a in names}
+        for i, a in enumerate(cyc):
+            edges[a].append(cyc[(i + 1) % k])
+        for a in rest:                       # ancestors above cycle members (and above each other, acyclic)
+            edges[a] = rng.sample(cyc, rng.randint(1, min(2, k)))
+            edges[a] += [b for b in rest[rest.index(a) + 1:] if rng.random() < 0.3]
+    else:
+        edges = {a: [b for b in names if rng.random() < p] for a in names}    # a -> b : b is a subtype / item of a
     for a in names:
         rng.shuffle(edges[a])
     s = G.Schema("sg")
@@ -177,6 +219,35 @@ def gen_graph_case(rng, name, kind, n=None):
                   [(code, [a]) for a in on_cycle], "reject" if on_cycle else "accept",
                   note=f"graph {edges}")
     c.on_cycle = on_cycle
+    return c
+
+
+def gen_chain_case(rng, name, length=None):
+    """a VALID chained import: the last schema declares x, every other one imports it from its successor (partial USE, or
+    REFERENCE for the first one, optionally renamed) and the first one uses it; schema names are a random sample and the text
+    order is shuffled, so the hash order in which pass 2 visits the schemas varies"""
+    k = length or rng.randint(3, 4)
+    names = rng.sample(G.SCHEMA_NAMES + NAME_POOL, k)
+    schemas = [G.Schema(nm) for nm in names]
+    x = G.Entity("point")
+    x.attrs.append(G.Attr("px", ("S", "REAL")))
+    schemas[-1].decls.append(x)
+    vis = "point"
+    for i in range(k - 2, -1, -1):
+        new = None
+        if rng.random() < 0.35:
+            new = f"pt{i}"
+        kind = "ref" if (i == 0 and rng.random() < 0.4) else "use"
+        schemas[i].ifaces.append(G.Iface(kind, names[i + 1], [G.Item(vis, new)]))
+        vis = new or vis
+        e = G.Entity(f"holder{i}")
+        e.attrs.append(G.Attr(f"at{i}", ("N", vis)))
+        schemas[i].decls.append(e)
+    order = schemas[:]
+    rng.shuffle(order)
+    f = G.File(order)
+    c = make_case(name, f, "valid", [], "accept", note="chained import " + " <- ".join(names))
+    c.multi = True
     return c
 
 
@@ -279,6 +350,8 @@ def parse_run_reply(rep, table):
             diags.append((table.by_num.get(int(c), f"#{c}"), None, None, m.group(3).decode("latin-1") if m else msg.decode("latin-1"),
                           bool(m and m.group(1).startswith(b"ERROR"))))
     kv["diags"] = diags
+    kv["status"] = {"usage": "2", "crash": "abort"}.get(kv.get("status"), kv.get("status"))
+    kv.setdefault("backend", "0")
     return kv
 
 
